@@ -65,7 +65,7 @@ class Lexer(object):
     @TOKEN(r'("(\\.|[^"\\])*")|(\'(\\.|[^\'\\])*\')')
     def t_STRING(self, t):
         try:
-            t.value = t.value.strip("\"'").encode().decode("unicode_escape")
+            t.value = t.value[1:-1].encode().decode("unicode_escape")
         except UnicodeDecodeError:
             # An incomplete or unknown escape sequence (e.g. a backslash before the closing quote)
             raise SyntaxError("Invalid escape sequence in string at position {0}".format(t.lexpos))
